@@ -2143,7 +2143,8 @@ class NLProblemBuilder {
       DoAddVars(h.num_nl_integer_vars_in_both,
               var::INTEGER, k);
       DoAddVars(h.num_nl_vars_in_cons -
-              (h.num_nl_vars_in_both + h.num_nl_integer_vars_in_cons),
+              ((long long)h.num_nl_vars_in_both
+               + h.num_nl_integer_vars_in_cons),
               var::CONTINUOUS, k);
       DoAddVars(h.num_nl_integer_vars_in_cons,
               var::INTEGER, k);
@@ -2158,18 +2159,24 @@ class NLProblemBuilder {
     }
     MP_ASSERT_ALWAYS(num_nl_vars == k, "NLProblemBuilder: num_nl_vars mismatch");
     DoAddVars(h.num_vars -
-            (num_nl_vars +
+            ((long long)num_nl_vars +
              h.num_linear_integer_vars + h.num_linear_binary_vars),
             var::CONTINUOUS, k);
-    DoAddVars(h.num_linear_integer_vars + h.num_linear_binary_vars,
+    DoAddVars((long long)h.num_linear_integer_vars
+              + h.num_linear_binary_vars,
             var::INTEGER, k);
     MP_ASSERT_ALWAYS(h.num_vars == k, "NLProblemBuilder: num_vars mismatch");
   }
 
-  /// DoAddVars: update counter \a k
-  void DoAddVars(int n, var::Type t, int& k) {
-    builder_.AddVars(n, t);
-    k += n;
+  /// DoAddVars: update counter \a k.
+  /// \a n is computed from the header's counts, which are not
+  /// validated against each other when the header is read.
+  void DoAddVars(long long n, var::Type t, int& k) {
+    MP_ASSERT_ALWAYS(n >= 0 && n <= std::numeric_limits<int>::max() - k,
+                     "NLProblemBuilder: inconsistent variable counts "
+                     "in the NL header");
+    builder_.AddVars((int)n, t);
+    k += (int)n;
   }
 
   /// objno(). virtual, so that SolverNLHandler can override
